@@ -10,9 +10,19 @@ SMT_LEMMAS = ["mul_one", "mul_eq", "sq_one", "one_minus_sq", "prod_le_one", "sq_
               "cancel_sq", "reversal", "mirror", "translation"]
 USER_LEMMAS = ["same_square", "atan2_same_point", "tors_reversal", "torsion_of_reversal", "inv_unique", "inv_of_positive",
                "negated_same_norm", "nondegenerate_reversal", "general_position_reversal"]
+# = contracts.torsion_rot_c.TARGETS (every lemma of that sidecar; the sidecar checks at import that this is the dependency closure of
+# rigid_motion_coords / rigid_motion_v2, so no lemma is used that is not proved here)
+ROT_LEMMAS = ["mul_zero", "mul_one", "mul_eq", "mul_eq2", "sqrt_unique", "lin_zero6", "lin_diff2", "trans3", "trans4", "binet_cauchy", "rot_dot",
+              "rot_det", "inv_dot_diff", "inv_sqdist", "inv_dist", "inv_volume", "inv_torsion", "inv_same", "chain_eq", "neg_eq", "atan2_cong",
+              "norm_eq_of_sq", "ge_eq", "gt_eq", "unit_cross_sq", "inv_cross_dot", "inv_cross_norm", "inv_unit_cross_norm", "rigid_torsion",
+              "rigid_guards_coords", "rigid_guards_v2", "rigid_motion_coords", "rigid_motion_v2"]
 DEDUCTIVE = [
     {"module": "rnapolis.tertiary", "sidecar": "contracts.tertiary_c",
      "targets": ["calculate_torsion_angle_coords"] + ["lemma:" + l for l in SMT_LEMMAS]},
+    # "independent of ... rigid motion": spec-level lemmas over the polynomials and guards of the two code contracts above / below
+    # (contracts/torsion_rot_c.py; `module` only tells the engine which file to parse)
+    {"module": "rnapolis.tertiary", "sidecar": "contracts.torsion_rot_c", "targets": ["lemma:" + l for l in ROT_LEMMAS],
+     "opts": {"z3_ms": 10000, "cvc5_s": 10}},
     {"module": "rnapolis.tertiary_v2", "sidecar": "contracts.tertiary_v2_c", "targets": ["calculate_torsion_angle@negated"],
      "suppressed_if_proved": "calculate_torsion_angle"},
     # the clause C18 states for the second implementation; fails on the current tree (known finding): short budget
@@ -29,6 +39,7 @@ DEDUCTIVE = [
      "opts": {"z3_ms": 10000, "cvc5_s": 10}},
 ]
 TRUSTED = ["z3 5.1.0 / cvc5 1.0.3", "numpy vector algebra is exact real algebra (A-real)",
+           "numpy.linalg.norm(v) is the non-negative real n with n*n == v.v (contracts/externals.py np_norm; code contracts and the rigid-motion lemmas)",
            "atan2 over the reals is invariant under positive scaling of its argument point (lemma atan2_scale, assumed)",
            "pyvc encoding (DESIGN 2.3)",
            "users (contracts/tertiary_users_c.py): numpy.array of a 3-element list is that vector; math.degrees / math.radians as uninterpreted "
@@ -38,7 +49,12 @@ TRUSTED = ["z3 5.1.0 / cvc5 1.0.3", "numpy vector algebra is exact real algebra 
            "Residue3D.find_atom through its contract (verified target here and in C04 / C11)"]
 ASSUMPTIONS = ["A-real: machine floats treated as mathematical reals; isnan() never true on real terms",
                "atan2(y, x) is *the* angle of the point (x, y); only scale invariance is used by the proof",
-               "rotation invariance of the IUPAC polynomials is not proved by SMT here (translation, reversal, mirror are); it is sampled by the bounded check",
+               "rigid motion (contracts/torsion_rot_c.py, proved by SMT): a rigid motion is p -> R p + t with R nine reals satisfying R^T R = I and "
+               "det R = 1 EXACTLY, over the reals; the lemmas are about the specification terms of the two code contracts (their guards and the "
+               "atan2 expression they return) - that f(R p + t) == f(p) for the floating-point functions holds only through those contracts "
+               "(A-real); float rounding of R p + t itself is covered by the bounded check's tolerance only. On degenerate inputs (guards "
+               "violated: both functions return 0.0) nothing is stated, here or in the code contracts; numpy.linalg.norm(v) is the non-negative "
+               "real n with n * n == v.v and x / n is x * r with n != 0 -> r * n == 1 (contracts/externals.py, pyvc real_div)",
                "users: math.nan occurs only as the sentinel 'chi undefined' (returned, tested with math.isnan) and is modelled as the None of an Optional "
                "real (MODULE_VALUES); a NaN reaching arithmetic / a comparison would be an undischarged safe.no_TypeError obligation; a returned None "
                "and a returned NaN are not distinguished inside chi / chi_class",
@@ -56,7 +72,17 @@ ASSUMPTIONS = ["A-real: machine floats treated as mathematical reals; isnan() ne
 EXPLANATION = ("Deductive: calculate_torsion_angle_coords (tertiary.py) returns atan2(Y, X) of the IUPAC polynomials on every non-degenerate input "
                "(48 obligations incl. clip-is-identity via Lagrange/Cauchy-Schwarz certificates); tertiary_v2.calculate_torsion_angle returns atan2(-Y, X) "
                "(contract @negated, proved) and therefore fails the IUPAC clause (known finding). Lemmas: reversal, mirror, translation. "
-               "Bounded: constructed dihedrals (NeRF) with random bond lengths/angles/rigid motions through both functions. "
+               "Rigid motion (contracts/torsion_rot_c.py, 33 lemma targets, 337 obligations, all by z3 in about 0.1 s each, every lemma used is itself a target): for R with R^T R = I, "
+               "det R = 1 and any t, inv_torsion: X, the triple product T and Y = |v2| T of the moved points R p_k + t EQUAL those of p_k (no scale "
+               "factor) - X by Binet-Cauchy (a x b).(c x d) == (a.c)(b.d) - (a.d)(b.c) from four invariant dot products of coordinate differences "
+               "(rot_dot with the certificate goal - sum m_ij (G_ij - delta_ij) == 0 as a ring identity), T as an oriented volume "
+               "(det[Ru Rv Rw] == det R det[u v w]), |v2| by uniqueness of the non-negative root; rigid_torsion: hence atan2(Y, X) and "
+               "atan2(-Y, X) are unchanged; rigid_guards_coords / rigid_guards_v2: the guards of the two functions (the requires of their code "
+               "contracts, taken textually) carry over to the moved points (orthogonality only; the unit-vector cross products through "
+               "|(u/|u|) x (v/|v|)|^2 == (1/|u| 1/|v|)^2 |u x v|^2); rigid_motion_coords / rigid_motion_v2: both together, i.e. with the proved code "
+               "contracts f(R p1 + t, .., R p4 + t) == f(p1, .., p4) for calculate_torsion_angle_coords and for calculate_torsion_angle on every "
+               "non-degenerate input. False siblings (python -m contracts.torsion_rot_c: reflection, stretch, shifted value) are all refuted with models. "
+               "Bounded: constructed dihedrals (NeRF) with random bond lengths/angles/rigid motions through both functions (float level). "
                "Users of the first implementation (last sentence of C18; contracts/tertiary_users_c.py): torsion_angle returns THE torsion "
                "(torsion_of := atan2(Y, X) of the four atom positions) of its arguments in the given order, from the proved contract of "
                "calculate_torsion_angle_coords; Residue3D.__chi_purine / __chi_pyrimidine return the torsion O4'-C1'-N9-C4 / O4'-C1'-N1-C2 (atom table "
